@@ -135,7 +135,7 @@ class C08(Check):
     def _sizes(self, d):
         if self.tier == "quick":
             return (6,)
-        return (3, 5, 6) if d == 2 else (4, 5, 6)
+        return (3, 6) if d == 2 else (4, 6)
 
     def _inits(self):
         # "int": an integer-dtype target (PointCloud keeps int64 points; anything that updates fit buffers in place
@@ -363,10 +363,14 @@ class C08(Check):
         return d
 
     def _hidden(self, al):
+        # walked attribute by attribute: mc.observe.buffers lists an array once per walk, so one walk over the whole
+        # object would make the digest depend on whether source and target happen to be the same PointCloud object
+        # (an inverse retargeted to the point set it was derived from) although nothing observable depends on it
         h = hashlib.sha1()
-        for path, arr in buffers(al):
-            h.update(path.encode())
-            h.update(repr(obs_key(arr)).encode())
+        for name, val in vars(al).items():
+            for path, arr in buffers(val, path="." + name):
+                h.update(path.encode())
+                h.update(repr(obs_key(arr)).encode())
         return h.hexdigest()
 
     def canon(self, st):
@@ -386,9 +390,12 @@ class C08(Check):
             return [("gpa", False), ("gpa", True)]
         out = []
         n_obj = len(st["objs"])
+        last = level >= 3  # the fourth operation of a thorough history is a set_target (the re-fit is what is compared)
         for j in range(n_obj):
             for tn in TARGETS:
                 out.append(("set", j, tn))
+            if last:
+                continue
             if n_obj < MAX_OBJS:
                 out.append(("copy", j))
                 out.append(("pinv", j))
@@ -689,7 +696,8 @@ class C08(Check):
         return [
             "comparison with the fresh build is exact (bitwise) - constructor and re-fit run the same arithmetic",
             "sources obey the general-position guard of mc.letters (pairwise distance >= 0.8, 2-D triangle area >= 0.35); PWA sources are jittered convex layouts with an explicit triangulation",
-            "at most %d live objects (original + copies + inverses); sequences bounded by the depth of the tier" % MAX_OBJS,
+            "at most %d live objects (original + copies + inverses); sequences bounded by the depth of the tier; the fourth operation of a thorough history is restricted to set_target (all targets, all live objects)" % MAX_OBJS,
+            "aliasing between source / target / pool objects is not part of the canonical state: an operation that writes into a caller's object is reported by the caller-objects-unchanged clause at the step where it happens",
             "the fresh construction itself is the reference the property names; its optimality is C07's subject",
             "a wrong-sized target must be refused with ValueError (DESIGN.md C08) and leave every observation unchanged",
             "GPA is run with target=None only (the property's clause); 2..4 shapes, three shape families",
